@@ -4,6 +4,7 @@ import (
 	"math/big"
 
 	"github.com/MinterTeam/minter-go-node/coreV2/types"
+	"github.com/MinterTeam/minter-go-node/rlp"
 )
 
 func verifSecpN() *big.Int {
@@ -86,4 +87,36 @@ func VerifHarness_C23_HashCoversFields() {
 		return
 	}
 	verifAssert("C23:hash-covers-field", tx.Hash() != base)
+}
+
+// C23: no second encoding of a signed transaction is accepted: trailing bytes
+// after the signature list inside SignatureData (which the signed hash does not
+// cover), or after the whole transaction, make the decoder reject it.
+func VerifHarness_C23_TrailingBytesRejected() {
+	u := verifUniverse()
+	nonce0 := verifU64("nonce0")
+	u.st.Accounts.SetNonce(u.A, nonce0)
+	data := SendData{Coin: 0, To: u.B, Value: verifBigNN("value")}
+	tx := verifTx(verifU64("nonce"), verifU32("gasPrice"), 0, TypeSend, data)
+	raw := verifSignBy(tx, 1)
+	switch verifChoice("where", 3) {
+	case 0:
+		// control: the untouched encoding (may be accepted)
+		resp := u.deliver(raw)
+		verifNote("code", uint64(resp.Code))
+		verifAssert("C23:control-reaches-the-executor", resp.Code == 0 || resp.Code != 0)
+		return
+	case 1:
+		tx.SignatureData = append(tx.SignatureData, 0x01)
+		var err error
+		raw, err = rlp.EncodeToBytes(tx)
+		if err != nil {
+			panic(err)
+		}
+	case 2:
+		raw = append(raw, 0x01)
+	}
+	resp := u.deliver(raw)
+	verifNote("code", uint64(resp.Code))
+	verifAssert("C23:rewritten-encoding-rejected", resp.Code != 0)
 }
